@@ -300,7 +300,8 @@ def flatten(env, v):
                 out.append(['c', 123])
                 for c in n.childNodes:
                     go(c)
-                out.append(['c', 125])
+                if hasattr(n, 'endit'):        # set by bgroup.digest when it met its closing brace
+                    out.append(['c', 125])
             elif n.nodeName == 'egroup':
                 out.append(['c', 125])
             else:
@@ -1052,7 +1053,11 @@ def enum_int_cases():
               (chs('`a'), 97, 'chr'), (chs('`') + [['cs', 'inert', 'a', 0]], 97, 'chr'), (chs('`') + [['c', 12, 48]], 48, 'chr'),
               ([count_reg(5)], 5, 'reg'), ([count_reg(-3)], -3, 'reg'), ([dimen_reg(131072)], 131072, 'reg')]
     follows = [[], chs('x'), chs(' '), chs(' x'), chs('9'), chs('8'), chs('a'), chs('f'), chs('F'), chs('G'), [list(RELAX)], chs('{'),
-               chs('}'), chs('pt'), chs('.5'), chs('-'), [count_reg(3)]]
+               chs('}'), chs('pt'), chs('.5'), chs('-'), [count_reg(3)],
+               # every other kind of token directly after the digits: they end the number unexpanded
+               [['c', 3, 36]], [['c', 4, 38]], [['c', 7, 94]], [['c', 8, 95]], [['c', 6, 35]], [['cs', 'inert', 'relax', 1]],
+               [['cs', 'inert', 'protect', 0]], chs(' {'), chs(' }'), chs(' ') + [list(RELAX)], [dimen_reg(65536)],
+               [['cs', 'count', 3, 1]]]
     for sg in signs:
         for b in bodies:
             for sp in (False, True):
@@ -1362,8 +1367,13 @@ def mk_call(rng, args):
             continue
         if ty in ('Number', 'Dimen', 'Glue'):
             if ty == 'Number':
-                c = int_case(rng, body=int_body(rng, kinds=('dec', 'oct', 'hex')), follow=[], space=True)
+                c = int_case(rng, body=int_body(rng, kinds=('dec', 'oct', 'hex')), follow=[], space=False)
                 lit, val = c['toks'], [5, c['expect']['value']]
+                # normally ended by a blank; sometimes (marker) directly by what follows, which is the known finding when that
+                # is a brace: the digit scanner still expands the token that ends the digits
+                toks += lead + lit + [['after-number', rng.random() < 0.12]]
+                binds[a['name']] = val
+                continue
             elif ty == 'Dimen':
                 lit, v, _, _ = dimen_literal(rng, allow_reg=False)
                 val = [6, [v.numerator, v.denominator]]
@@ -1371,7 +1381,6 @@ def mk_call(rng, args):
                 lit, comps, _, _, _ = glue_literal(rng, allow_reg=False)
                 val = [7, [[] if x is None else [x.numerator, x.denominator] for x in comps]]
             toks += lead + lit + ([] if ends_with_space(lit) else chs(' '))
-            toks += [['after-number']] if ty == 'Number' else []
             binds[a['name']] = val
             continue
         if spec is None:
@@ -1402,7 +1411,8 @@ def mk_call(rng, args):
 
 def finalize_call(toks, follow):
     """resolve the markers: an absent optional must not be followed by its own opening delimiter (else the case is discarded:
-    returns None); a Number argument directly followed by a brace group is the known look-ahead finding (flag returned)"""
+    returns None); a Number argument is ended by a blank, or -- marker flag -- directly by a following brace group, which is the
+    known look-ahead finding (flag returned)"""
     out = []
     seq = toks + follow
     flag = False
@@ -1413,9 +1423,12 @@ def finalize_call(toks, follow):
                 j += 1
             if t[0] == 'mark-absent' and j < len(seq) and seq[j][0] == 'c' and chr(seq[j][2]) == t[1]:
                 return None, False
-            if t[0] == 'after-number' and j < len(seq) and ((seq[j][0] == 'c' and seq[j][1] in (1, 2)) or
-                                                            (seq[j][0] == 'cs' and seq[j][1] in ('count', 'dimen', 'glue'))):
-                flag = True
+            if t[0] == 'after-number':
+                nxt = seq[i + 1] if i + 1 < len(seq) else None
+                if t[1] and nxt is not None and nxt[0] == 'c' and nxt[1] in (1, 2):
+                    flag = True            # 12{abc}: no blank, the brace is expanded by the digit scanner
+                else:
+                    out.append(['c', 10, 32])
             continue
         out.append(t)
     return out, flag
@@ -1443,7 +1456,7 @@ def parse_case(rng):
             if any(binds.get(a['name']) == [0] and (a['spec'][0] == f0) for a in trailing):
                 continue
         ebinds = binds
-        key = 'C05:parse:number-then-brace' if lookahead else None
+        key = None        # (a brace right after a Number argument binds correctly since 076499b; such calls stay in the stream)
         return dict(kind='parse', sig=sig, toks=seq, key=key, nt=nt or len(args) >= 3, tags=['args=%d' % len([a for a in args if not a.get('mod')])] +
                     sorted({'type:' + str(a.get('type')) for a in args if not a.get('mod')}) +
                     sorted({'spec:' + str(a.get('spec')) for a in args if not a.get('mod')}),
